@@ -130,11 +130,7 @@ theorem safe_mapPairError (hwf : StreamWF s) : Safe s (mapPairError s) := by
 
 theorem safe_parameter (hwf : StreamWF s) : Safe s (parameter s) := by
   unfold parameter
-  refine safe_bind safe_getSt fun st => ?_
-  dsimp only
-  split
-  · exact safe_bind (safe_errorLine hwf) fun _ => safe_bind (safe_pushErr _) fun _ => safe_pure _
-  · exact safe_pure _
+  exact safe_bind safe_getSt fun st => safe_pure _
 
 theorem safe_parseFunctionParametersLoop (hwf : StreamWF s) (fuel : Nat) : ∀ acc, Safe s (parseFunctionParametersLoop s fuel acc) := by
   induction fuel with
@@ -154,17 +150,14 @@ theorem safe_parseFunctionParameters (hwf : StreamWF s) (fuel : Nat) : Safe s (p
   · exact safe_bind safe_nextToken fun _ => safe_pure _
   · refine safe_bind safe_nextToken fun _ => safe_bind (safe_parameter hwf) fun _ =>
       safe_bind (safe_parseFunctionParametersLoop hwf fuel _) fun ids => ?_
-    refine safe_bindQ (safeQ_expectPeek hwf .RPAREN (by decide)) fun b st' hi' hq => ?_
+    refine safe_bind (safe_expectPeek hwf .RPAREN (by decide)) fun b => ?_
     cases b with
-    | false => exact safe_pure _ st' hi'
+    | false => exact safe_pure _
     | true =>
-      have hp := hq rfl
       simp only [Bool.not_true, Bool.false_eq_true, if_false]
-      show OKQ s _ (PM.bind getSt _ st')
-      simp only [PM.bind, getSt]
-      cases h : st'.prev with
-      | none => simp [h] at hp
-      | some p => exact ⟨hi', trivial⟩
+      split
+      · exact safe_pure _
+      · exact safe_bind (safe_errorLine hwf) fun _ => safe_bind (safe_pushErr _) fun _ => safe_pure _
 
 theorem okParamList_ne_none : ∀ l : NList, okParamList l ≠ none := by
   intro l
